@@ -29,6 +29,8 @@ ROUND_TRIP = [
     ('arrays', 'a = [1, 2]\nb = [ 1 , "x" , ] # c\ne = []\nf = [ ]\nm = [\n  1, # one\n  2\n]\nn = [ [ 1 ], [ ], [[2]] ]\no = [\n  # only a comment\n]\n'),
     ('inline tables', 't = { a = 1, b.c = "x" }\ne = {}\nf = { }\nv = { a = { b = [ { c = 1 } ] } }\n"q k" = { \'x y\' . z = true }\n'),
     ('arrays of inline tables below a header', '[s]\npts = [ { x = 1, y = 2 }, { x = 3, y = 4 } ]\nr.q = [ true ]\n'),
+    ('CRLF line endings', '# c\r\n\r\n[a] # h\r\nx = 1 # v\r\n  y  =  "s"\r\n\r\n[[b]]\r\nz = [\r\n  1, # one\r\n  2,\r\n]\r\nw = { k = [ ] }\r\nu = [\r\n 1\r\n]\r\ne = [\r\n]\r\nn = [ [\r\n # in\r\n] ,\r\n [ 1 ] ]\r\n[ d . c ]\r\n# tail\r\n'),
+    ('mixed LF and CRLF line endings', 'a = 1\r\nb = 2\n[t]\r\n\nc = [ 1,\r\n 2 ]\n# end\r\n'),
     ('no final newline after a key-value pair', 'x = 1'),
     ('no final newline after a commented key-value pair', 'x = 1\ny = 2 # c'),
     ('no final newline after a header', 'x = 1\n[a]'),
@@ -129,6 +131,7 @@ def plain_table(t):
 
 def expected_print(text):
     """the three normalisations of the property, for LF-only documents without a byte-order mark: a newline is added when the final key-value or header line has none"""
+    text = text.replace('\r\n', '\n')          # (none of the model documents has a multi-line string)
     if not text or text.endswith('\n'):
         return text
     last = text.rsplit('\n', 1)[-1]
